@@ -12,6 +12,8 @@ pub type SearchResult = Result<Rcvar, JmespathError>;
 
 /// Interprets the given data using an AST node.
 pub fn interpret(data: &Rcvar, node: &Ast, ctx: &mut Context<'_>) -> SearchResult {
+    #[cfg(feature = "verif-hooks")]
+    let _verif_interp = crate::verif::InterpGuard::enter();
     match *node {
         Ast::Field { ref name, .. } => Ok(data.get_field(name)),
         Ast::Subexpr {
@@ -152,6 +154,8 @@ pub fn interpret(data: &Rcvar, node: &Ast, ctx: &mut Context<'_>) -> SearchResul
             for arg in args {
                 fn_args.push(interpret(data, arg, ctx)?);
             }
+            #[cfg(feature = "verif-hooks")]
+            let _verif_call = crate::verif::CallGuard::enter(offset, name);
             // Reset the offset so that it points to the function being evaluated.
             ctx.offset = offset;
             match ctx.runtime.get_function(name) {
